@@ -54,9 +54,12 @@ func main() {
 	case "C06":
 		rep = suiteParse("C06", *tier, *seed, *model, map[string]bool{"fault": true})
 		rep.Merge(suiteChunk("C06", "fault", *tier, *seed, *model))
+		rep.Merge(suiteFaultOther(*tier, *seed))
 	case "C09":
 		rep = suiteParse("C09", *tier, *seed, *model, map[string]bool{"position": true})
 		rep.Merge(suiteChunk("C09", "position", *tier, *seed, *model))
+	case "C06x":
+		rep = suiteFaultOther(*tier, *seed)
 	default:
 		fmt.Fprintf(os.Stderr, "unknown property %q\n", *prop)
 		os.Exit(2)
